@@ -44,7 +44,7 @@ impl TypeRegistry {
         #[cfg(pyxis_verif)]
         if let Some(_guard) = crate::verif::enter(crate::verif::Site::Resolved) {
             let raw = self.resolved();
-            return crate::verif::reorder(crate::verif::Site::Resolved, raw, |p| p.to_string());
+            return crate::verif::reorder(crate::verif::Site::Resolved, raw, crate::verif::path_key);
         }
         self.types
             .iter()
@@ -58,9 +58,7 @@ impl TypeRegistry {
         if let Some(_guard) = crate::verif::enter(crate::verif::Site::Unresolved) {
             // Runs the untouched body below, then lets the scheduler order its result.
             let raw = self.unresolved();
-            return crate::verif::reorder(crate::verif::Site::Unresolved, raw, |p| {
-                p.to_string()
-            });
+            return crate::verif::reorder(crate::verif::Site::Unresolved, raw, crate::verif::path_key);
         }
         self.types
             .iter()
